@@ -256,12 +256,15 @@ private theorem hsStep_no_panic {P : Prims} (hP : PrimsOk P) {c c' : Conn} {b : 
   | failed e => simp [hp] at h
   | panicked => simp [hp] at h
 
-private theorem progress1_no_panic {P : Prims} (hP : PrimsOk P) (cq : Conn × Net)
-    (h : cq.1.phase ≠ .panicked) : (progress1 P cq).1.phase ≠ .panicked := by
-  unfold progress1
-  cases hs : hsStep P cq.1 cq.2.flatten with
-  | none => exact h
-  | some r => exact hsStep_no_panic hP hs
+private theorem progressN_no_panic {P : Prims} (hP : PrimsOk P) (k : Nat) (cq : Conn × Net)
+    (h : cq.1.phase ≠ .panicked) : (progressN P k cq).1.phase ≠ .panicked := by
+  induction k generalizing cq with
+  | zero => exact h
+  | succ k ih =>
+    unfold progressN
+    cases hs : hsStep P cq.1 cq.2.flatten with
+    | none => exact h
+    | some r => exact ih _ (hsStep_no_panic hP hs)
 
 /-- **No panic**: starting the handshake and feeding *any* bytes in *any* segmentation never reaches
 a Go run-time panic (the only candidates are `m[:keyLen]` and `cipher.NewCTR`'s IV check). -/
@@ -278,8 +281,7 @@ theorem no_panic_handshake (P : Prims) (hP : PrimsOk P) (initiator : Bool) (seed
       obtain ⟨rfl, _⟩ := hc; simp
     have prog : ∀ (c : Conn) (q : Net), c.phase ≠ .panicked → (progress P c q).1.phase ≠ .panicked := by
       intro c q h
-      unfold progress
-      exact progress1_no_panic hP _ (progress1_no_panic hP _ (progress1_no_panic hP _ h))
+      exact progressN_no_panic hP 3 (c, q) h
     have all : ∀ (cs : List Bytes) (c : Conn) (q : Net), c.phase ≠ .panicked →
         (feedAll P c q cs).1.phase ≠ .panicked := by
       intro cs
@@ -322,16 +324,18 @@ never exceeds `maxPadding`, for any input bytes and any segmentation; the other 
 have the fixed sizes `seedLen` and `hsLen`. -/
 theorem buffer_bounded_handshake (P : Prims) (c : Conn) (h0 : c.alloc ≤ maxPadding) (q : Net)
     (cs : List Bytes) : (feedAll P c q cs).1.alloc ≤ maxPadding := by
-  have p1 : ∀ cq : Conn × Net, cq.1.alloc ≤ maxPadding → (progress1 P cq).1.alloc ≤ maxPadding := by
-    intro cq h
-    unfold progress1
-    cases hs : hsStep P cq.1 cq.2.flatten with
-    | none => exact h
-    | some r => exact hsStep_alloc hs h
-  have prog : ∀ (c : Conn) (q : Net), c.alloc ≤ maxPadding → (progress P c q).1.alloc ≤ maxPadding := by
-    intro c q h
-    unfold progress
-    exact p1 _ (p1 _ (p1 _ h))
+  have pn : ∀ (k : Nat) (cq : Conn × Net), cq.1.alloc ≤ maxPadding → (progressN P k cq).1.alloc ≤ maxPadding := by
+    intro k
+    induction k with
+    | zero => intro cq h; exact h
+    | succ k ih =>
+      intro cq h
+      unfold progressN
+      cases hs : hsStep P cq.1 cq.2.flatten with
+      | none => exact h
+      | some r => exact ih _ (hsStep_alloc hs h)
+  have prog : ∀ (c : Conn) (q : Net), c.alloc ≤ maxPadding → (progress P c q).1.alloc ≤ maxPadding :=
+    fun c q h => pn 3 (c, q) h
   induction cs generalizing c q with
   | nil => exact prog c q h0
   | cons ch cs ih => exact ih _ (prog c q h0) _
